@@ -54,7 +54,7 @@ func runC20(c *Ctx) {
 					if !okk || len(elems) != 3 {
 						return false
 					}
-					okB, _ := allOrigins(elems[0], oIsValue(outer.Params[0]), oConstString("/"))
+					okB, _ := allOrigins(elems[0], oIsValue(roleParam(outer, "string", 0)), oConstString("/"))
 					okP := vFieldLoadO("rt/middleware.specOptions", "Path")(elems[1])
 					okD := vFieldLoadO("rt/middleware.specOptions", "Document")(elems[2])
 					if !okP || !okD {
@@ -71,7 +71,7 @@ func runC20(c *Ctx) {
 			}
 		} else {
 			pthOK = func(v ssa.Value) (bool, string) {
-				ok, bad := allOrigins(v, oIsValue(outer.Params[0]))
+				ok, bad := allOrigins(v, oIsValue(roleParam(outer, "string", 0)))
 				return ok, describeOrigin(bad)
 			}
 		}
@@ -94,9 +94,9 @@ func runC20(c *Ctx) {
 			}
 			return b == (bo.Op == token.EQL)
 		}
-		nextVal := vOrigins(oIsValue(outer.Params[len(outer.Params)-1]))
+		nextVal := vOrigins(oIsValue(roleParam(outer, "net/http.Handler", len(outer.Params)-1)))
 		if s.what == "spec" {
-			nextVal = vOrigins(oIsValue(outer.Params[2]))
+			nextVal = vOrigins(oIsValue(roleParam(outer, "net/http.Handler", 2)))
 		}
 		noNext := factNil(nextVal, true)
 		haveNext := factNil(nextVal, false)
@@ -106,7 +106,9 @@ func runC20(c *Ctx) {
 			switch name {
 			case "(net/http.ResponseWriter).Write", "(net/http.ResponseWriter).WriteHeader", "(net/http.ResponseWriter).Header":
 				nWrites++
-				ok := guardedBy(ci, nil, intercept) || guardedBy(ci, nil, noNext)
+				// (on every path one of the two facts: a shared write — the Content-Type set once for both answers — is
+				// reached through "ours" on some paths and through "no next handler" on the others)
+				ok := guardedBy(ci, nil, intercept) || guardedBy(ci, nil, noNext) || guardedBy(ci, nil, anyFact(intercept, noNext))
 				c.obI("R20.1", ci, s.what+"-write-only-on-own-path", ok,
 					"the middleware touches the response only when path.Clean(r.URL.Path) EQUALS its document path (or, without a next handler, to answer 404)",
 					"a response write is reachable for a request whose cleaned path differs from the document path although a next handler exists")
@@ -203,7 +205,7 @@ func runC20(c *Ctx) {
 					continue
 				}
 				_, args := callArgs(ci.Common())
-				ok, bad := allOrigins(args[0], oIsValue(outer.Params[1]))
+				ok, bad := allOrigins(args[0], oIsValue(roleParam(outer, "[]byte", 1)))
 				c.obI("R20.1", ci, "spec-writes-given-bytes", ok, "Spec serves exactly the bytes it was given", "origin "+describeOrigin(bad))
 			}
 			for _, ci := range callsIn(f, "(net/http.Header).Set") {
@@ -236,6 +238,8 @@ func runC20(c *Ctx) {
 			continue
 		}
 		sv := serve[0].(*ssa.Call)
+		suFn := p.Fn("rt/middleware.serveUI")
+		uiP, uiA, uiN := paramIndexOfType(suFn, "string", 0), paramIndexOfType(suFn, "[]byte", 1), paramIndexOfType(suFn, "net/http.Handler", 2)
 		ex := exec[0].(*ssa.Call)
 		var okPath bool
 		if u.pathField == "" {
@@ -243,10 +247,10 @@ func runC20(c *Ctx) {
 				elems, okk := sliceLitElems(j.Call.Args[0])
 				return okk && len(elems) == 2 && vFieldLoadO(u.optsT, "BasePath")(elems[0]) && vFieldLoadO(u.optsT, "Path")(elems[1])
 			})
-			okPath, _ = allOrigins(sv.Call.Args[0], isJoin)
+			okPath, _ = allOrigins(sv.Call.Args[uiP], isJoin)
 			if !okPath {
 				// a defensive "/" when the joined path came out empty (it cannot: the base path is never empty)
-				if phi, isPhi := sv.Call.Args[0].(*ssa.Phi); isPhi {
+				if phi, isPhi := sv.Call.Args[uiP].(*ssa.Phi); isPhi {
 					okPath = true
 					nJoin := 0
 					for i, e := range phi.Edges {
@@ -263,10 +267,10 @@ func runC20(c *Ctx) {
 				}
 			}
 		} else {
-			okPath = vFieldLoadO(u.optsT, u.pathField)(sv.Call.Args[0])
+			okPath = vFieldLoadO(u.optsT, u.pathField)(sv.Call.Args[uiP])
 			if !okPath {
 				// a defensive recomputation when the configured value came out empty (it cannot: the defaulting fills it)
-				if phi, isPhi := sv.Call.Args[0].(*ssa.Phi); isPhi {
+				if phi, isPhi := sv.Call.Args[uiP].(*ssa.Phi); isPhi {
 					okPath = true
 					nCfg := 0
 					for i, e := range phi.Edges {
@@ -282,10 +286,10 @@ func runC20(c *Ctx) {
 				}
 			}
 		}
-		c.obI("R20.1", sv, "ui-path", okPath, "the page is served at path.Join(opts.BasePath, opts.Path) (the OAuth2 callback at opts.OAuthCallbackURL)", "path argument "+describe(sv.Call.Args[0]))
+		c.obI("R20.1", sv, "ui-path", okPath, "the page is served at path.Join(opts.BasePath, opts.Path) (the OAuth2 callback at opts.OAuthCallbackURL)", "path argument "+describe(sv.Call.Args[uiP]))
 		// assets = buffer written by Execute
 		_, eargs := callArgs(&ex.Call)
-		okAssets, _ := allOrigins(sv.Call.Args[1], oCallWhere(-1, "(*bytes.Buffer).Bytes", func(b *ssa.Call) bool {
+		okAssets, _ := allOrigins(sv.Call.Args[uiA], oCallWhere(-1, "(*bytes.Buffer).Bytes", func(b *ssa.Call) bool {
 			for _, o := range originsOf(b.Call.Args[0]) {
 				for _, o2 := range originsOf(eargs[0]) {
 					if o.V == o2.V {
@@ -297,7 +301,7 @@ func runC20(c *Ctx) {
 		}))
 		if !okAssets {
 			// the rendered buffer itself may be handed over (its Bytes() being taken by the serving side at construction)
-			okAssets = sameOrigins(unboxed(sv.Call.Args[1]), unboxed(eargs[0]))
+			okAssets = sameOrigins(unboxed(sv.Call.Args[uiA]), unboxed(eargs[0]))
 		}
 		// the buffer rendered into belongs to this construction alone (never a pooled / shared buffer whose bytes a later
 		// construction would overwrite under the handler that keeps serving them)
@@ -311,7 +315,7 @@ func runC20(c *Ctx) {
 		})
 		c.obI("R20.1", ex, "rendering-buffer-private", okPriv, "the page is rendered into a buffer created by this very construction", "origin "+describeOrigin(badPriv))
 		c.obI("R20.1", sv, "ui-serves-the-rendering", okAssets && dominates(ex, sv), "serveUI serves the bytes rendered by the template at construction time", "assets argument is not the buffer Execute wrote")
-		okNext, _ := allOrigins(sv.Call.Args[2], oIsValue(f.Params[1]))
+		okNext, _ := allOrigins(sv.Call.Args[uiN], oIsValue(f.Params[1]))
 		c.obI("R20.1", sv, "ui-next", okNext, "the UI middleware forwards to the handler it was given", "")
 		// the data executed is the options struct after EnsureDefaults
 		ed := callsIn(f, "(*"+u.optsT+").EnsureDefaults", "(*"+u.optsT+").EnsureDefaultsOauth2")
@@ -786,4 +790,24 @@ func specOptionFieldIndex(v ssa.Value) (int, bool) {
 		idx = fa.Field
 	}
 	return idx, idx >= 0
+}
+
+// roleParam: the one parameter of fn with the given type (roles are told by type, so that a reordered signature is
+// the same function); the positional default when the type is absent or occurs more than once.
+func roleParam(fn *ssa.Function, typ string, def int) *ssa.Parameter {
+	return fn.Params[paramIndexOfType(fn, typ, def)]
+}
+
+func paramIndexOfType(fn *ssa.Function, typ string, def int) int {
+	idx, n := def, 0
+	for i, prm := range fn.Params {
+		if typeStr(prm.Type()) == typ {
+			idx = i
+			n++
+		}
+	}
+	if n != 1 {
+		return def
+	}
+	return idx
 }
